@@ -29,7 +29,8 @@ macro "c23_ring" hc:term : tactic =>
 macro "c23_field" hc:term : tactic =>
   `(tactic| first
       | rfl
-      | (field_simp <;> first | ring1 | (ring_nf; (try c_powers $hc); first | done | ring1)))
+      | (field_simp <;> first | ring1 | (ring_nf; (try c_powers $hc); first | done | ring1))
+      | c23_ring $hc)
 
 /-- all components of a list / matrix equality, polynomial case -/
 macro "c23_poly" hc:term : tactic =>
@@ -39,7 +40,7 @@ macro "c23_poly" hc:term : tactic =>
 macro "c23_rat" hc:term " with " hd:ident : tactic =>
   `(tactic| ((try c23_unfold at $hd:ident); c23_unfold; generalize_ne $hd => e he
              (try (repeat' apply And.intro))
-             all_goals (first | rfl | (field_simp <;> (try simp only [← he]) <;> c23_ring $hc))))
+             all_goals (first | rfl | (field_simp <;> (try simp only [← he]) <;> c23_field $hc))))
 
 /-- all components, rational case with atomic denominators already in context -/
 macro "c23_rat0" hc:term : tactic =>
